@@ -182,6 +182,7 @@ type cliRun struct {
 	appLeak     bool
 	usable      bool // a connection object was handed back to the caller
 	extraWrites bool // something other than the two handshake requests was written in clear
+	nw          int  // number of writes in clear
 }
 
 var refusedRe = regexp.MustCompile(`Server refused our request with error: (-?\d+)`)
@@ -248,6 +249,7 @@ func runClientOnce(sec bool, mgrMode, must, peer string, chunks [][]byte, alt bo
 		req2 = hexCap(conn.writes[1])
 	}
 	r.extraWrites = nw > 2
+	r.nw = nw
 	for _, w := range conn.writes {
 		r.raw += hexs(w) + "|"
 	}
@@ -363,6 +365,15 @@ func hsClientSingle(op string) (string, string, string, bool, string) {
 	}
 	if mon == "" && !same {
 		mon = "outcome depends on segmentation"
+	}
+	// an error answer is final: no further request, no session (c06_after_refusal.go)
+	if mon == "" {
+		for _, r := range runs {
+			if why := clientAfterRefusal(data, r.nw, r.established); why != "" {
+				mon = why
+				break
+			}
+		}
 	}
 	if mon == "" && r0.established {
 		if why := independentClientCheck(data); why != "" {
@@ -643,5 +654,6 @@ func (hsClient) Gen(r *Rand, tier string, emit func(string)) {
 		send("0", r.Pick([]string{"nil", "skip"}), must, "eof", base)
 	}
 	// 8. several connections at the same moment (c06_par.go)
+	hsClientAfterRefusalGen(r, tier, send)
 	hsClientParGen(r, tier, emit)
 }
